@@ -7,6 +7,7 @@ import (
 	"sort"
 	"strconv"
 	"strings"
+	"sync"
 	"sync/atomic"
 	"time"
 
@@ -23,7 +24,60 @@ const c17Slot = 35 // ms between scripted completions
 var c17seq int64
 
 // run one of B/F/I against n scripted servers; v[i] in {ok<r>, svc, lost, slow}; order = completion order
+// network "vslow": the same scripted servers, reached through clients whose Close takes a while (a transport that
+// flushes, a close plugin doing I/O): the verdict of a multi-server call does not depend on how long the clean-up
+// after a failed server takes
+type slowClient struct{ *client.Client }
+
+func (c *slowClient) Close() error {
+	time.Sleep(6 * time.Millisecond)
+	return c.Client.Close()
+}
+
+type slowBuilder struct {
+	mu sync.Mutex
+	m  map[string]client.RPCClient
+}
+
+func (b *slowBuilder) SetCachedClient(c client.RPCClient, k, sp, sm string) {
+	b.mu.Lock()
+	b.m[k] = c
+	b.mu.Unlock()
+}
+func (b *slowBuilder) FindCachedClient(k, sp, sm string) client.RPCClient {
+	b.mu.Lock()
+	defer b.mu.Unlock()
+	if c, ok := b.m[k]; ok {
+		return c
+	}
+	return nil
+}
+func (b *slowBuilder) DeleteCachedClient(c client.RPCClient, k, sp, sm string) {
+	b.mu.Lock()
+	delete(b.m, k)
+	b.mu.Unlock()
+}
+func (b *slowBuilder) GenerateClient(k, sp, sm string) (client.RPCClient, error) {
+	opt := client.DefaultOption
+	opt.SerializeType = protocol.JSON
+	opt.Heartbeat = false
+	c := client.NewClient(opt)
+	if err := c.Connect("vsrv", strings.TrimPrefix(k, "vslow@")); err != nil {
+		return nil, err
+	}
+	return &slowClient{c}, nil
+}
+
+func init() {
+	client.RegisterCacheClientBuilder("vslow", &slowBuilder{m: map[string]client.RPCClient{}})
+}
+
+// op suffixes: "s" = Sticky option with a sticky server established, "w" = clients whose Close takes a while
+func c17Base(op string) string { return strings.TrimRight(op, "sw") }
+
 func c17Run(op string, v []string, order []int, sticky bool) (obs string, fails []string) {
+	slow := strings.HasSuffix(op, "w")
+	op = c17Base(op)
 	uid := atomic.AddInt64(&c17seq, 1)
 	n := len(v)
 	rank := make([]int, n)
@@ -43,7 +97,11 @@ func c17Run(op string, v []string, order []int, sticky bool) (obs string, fails 
 		fs := &fakeServer{id: i, calls: []string{act}, delayMs: rank[i] * c17Slot}
 		registerFake(addr, fs)
 		addrs = append(addrs, addr)
-		pairs = append(pairs, &client.KVPair{Key: "vsrv@" + addr})
+		if slow {
+			pairs = append(pairs, &client.KVPair{Key: "vslow@" + addr})
+		} else {
+			pairs = append(pairs, &client.KVPair{Key: "vsrv@" + addr})
+		}
 	}
 	defer func() {
 		for _, a := range addrs {
@@ -308,7 +366,9 @@ func c17Raw(o *common.Out, id, spec string) {
 	ops := p[0]
 	n, _ := strconv.Atoi(p[1])
 	uid := atomic.AddInt64(&c17seq, 1)
-	answer := func(round, i int) string { return fmt.Sprintf("answer-of-server-%d-to-call-%d-%s", i, round, strings.Repeat("x", 8)) }
+	answer := func(round, i int) string {
+		return fmt.Sprintf("answer-of-server-%d-to-call-%d-%s", i, round, strings.Repeat("x", 8))
+	}
 	var pairs []*client.KVPair
 	var addrs []string
 	for i := 0; i < n; i++ {
@@ -426,7 +486,7 @@ func runC17(r *common.Rand, tier string, o *common.Out, replay string) {
 			p := strings.SplitN(f, "|", 2)
 			o.Fail("replay", p[0], p[1], replay)
 		}
-		o.Case("replay", strings.Replace(replay, op+" ", strings.TrimSuffix(op, "s")+" ", 1), obs, true)
+		o.Case("replay", strings.Replace(replay, op+" ", c17Base(op)+" ", 1), obs, true)
 		return
 	}
 	outs := []string{"ok", "svc", "lost", "slow"}
@@ -474,6 +534,18 @@ func runC17(r *common.Rand, tier string, o *common.Out, replay string) {
 				}
 				for _, op := range []string{"B", "F", "I"} {
 					jobs = append(jobs, job{op, v, perm})
+				}
+				anyOK := false
+				for _, x := range v {
+					if strings.HasPrefix(x, "ok") {
+						anyOK = true
+					}
+				}
+				if !anyOK || (code+pi)%4 == 1 {
+					// every server fails (or a sample of the others): the same through clients whose Close takes a while
+					for _, op := range []string{"Bw", "Fw", "Iw"} {
+						jobs = append(jobs, job{op, v, perm})
+					}
 				}
 				if n >= 2 && (code+pi)%2 == 0 {
 					// the same with the Sticky option and a sticky server established by an earlier call
@@ -531,7 +603,7 @@ func runC17(r *common.Rand, tier string, o *common.Out, replay string) {
 			p := strings.SplitN(f, "|", 2)
 			o.Fail(id, p[0], p[1], line)
 		}
-		o.Case(id, fmt.Sprintf("%s %s %s", strings.TrimSuffix(j.op, "s"), strings.Join(j.v, ","), strings.Join(os, ",")), res[i].obs, len(j.v) >= 2)
+		o.Case(id, fmt.Sprintf("%s %s %s", c17Base(j.op), strings.Join(j.v, ","), strings.Join(os, ",")), res[i].obs, len(j.v) >= 2)
 		o.Count("op=" + j.op)
 		o.Count(fmt.Sprintf("servers=%d", len(j.v)))
 	}
